@@ -246,7 +246,7 @@ def check(eng, res):
     c05.accessors(eng, sub)
     c06.fully(eng, sub)
     for o in sub.obligations:
-        if o.role in ("weight-own-heavy-atoms", "meaning"):
+        if o.role in ("weight-own-heavy-atoms", "meaning") or o.role.startswith("stored-"):
             res.obligations.append(o)
     # what "generable" means for a system and its components (shared with C15): refusing relies on it
     from . import c15
